@@ -821,9 +821,17 @@ pub fn gen_case(rng: &mut Rng, tier: &str, profile: &str, stats: &mut Stats) -> 
         let pk = key_at(&local, hb, rng);
         ops.push(format!("kins {} v{}:- c o", hx(&pk), 7_000_000 + 8 * 16));
         // several members leave: the candidate still waits although there is room
-        let gone = rng.range(1, 10) as usize;
-        for m in members.iter().skip(1).take(gone) {
-            ops.push(format!("krm {}", hx(m)));
+        if rng.chance(1, 3) {
+            // (or all of them: the bucket is empty, the candidate still waits for its timeout)
+            stats.bump("gen.case.directed-bucket-emptied-around-a-waiting-candidate");
+            for m in members.iter() {
+                ops.push(format!("krm {}", hx(m)));
+            }
+        } else {
+            let gone = rng.range(1, 10) as usize;
+            for m in members.iter().skip(1).take(gone) {
+                ops.push(format!("krm {}", hx(m)));
+            }
         }
         // another bucket with a few nodes
         let ob = hot[hot.len() - 1];
@@ -840,6 +848,17 @@ pub fn gen_case(rng: &mut Rng, tier: &str, profile: &str, stats: &mut Stats) -> 
         }
         ops.push("ksleep 450".into());
         let other = ob as u64 + 1;
+        if rng.chance(1, 3) {
+            // (the candidate is let in by an operation that is not a lookup; the lookup comes afterwards)
+            match rng.below(3) {
+                0 => ops.push("kiter".into()),
+                1 => ops.push(format!("kstatus {} c o", hx(&pk))),
+                _ => ops.push(format!("kbydist {} 16", hb + 1)),
+            }
+            let target: [u8; 32] = rng.bytes(32).try_into().unwrap();
+            ops.push(format!("kclosest {}", hx(&target)));
+            ops.push(format!("kclosestp {} 1", hx(&target)));
+        }
         if rng.chance(1, 2) {
             // (or a closest-nodes walk, which promotes the candidate while it runs)
             let target: [u8; 32] = rng.bytes(32).try_into().unwrap();
